@@ -174,7 +174,7 @@ fn emit_events(sink: &mut Sink, src: u64, tag: &str, pol: Pol, evs: &[Ev], obs: 
     sink.add_stat("events", evs.len() as u64);
     sink.add_stat("outcome_failed", nf as u64);
     sink.add_stat("outcome_refused", nr as u64);
-    // a lock whose unlock time lies beyond its reset time was consulted in between
+    // regression indicator (must stay 0): a lock was released before its unlock time by the window reset
     let mut straddle = false;
     for (i, o) in obs.iter().enumerate() {
         if o.0 == Out::Failed && o.1 .0 == 1 && o.1 .3 > o.1 .2 {
@@ -372,16 +372,17 @@ fn alpha_of(advs: &[u64], exps: &[Option<u64>]) -> Vec<(u64, Option<u64>, bool)>
 
 fn gen_exhaustive(sink: &mut Sink, thorough: bool) {
     let h = G / 2;
-    let len = if thorough { 5 } else { 4 };
+    let len = 4;
+    let len_deep = if thorough { 5 } else { 4 };
     let base = 19_700 * DAY * G;
     let a_half = if thorough { alpha_of(&[0, h, G, G + h], &[None]) } else { alpha_of(&[0, G, G + h], &[None]) };
     // password, around the end of a UTC day, sub-second grid
-    exhaustive(sink, "xh_password_dayend", Pol::Password, &[], base + 86398 * G - h, &a_half, len);
+    exhaustive(sink, "xh_password_dayend", Pol::Password, &[], base + 86398 * G - h, &a_half, len_deep);
     // password with three failures already in the window (3 s delays), whole seconds
     let pre: Vec<Ev> = [86380u64, 86382, 86384].iter().map(|s| Ev { ct: base + s * G, exp: None, bad: true }).collect();
     exhaustive(sink, "xh_password_3s_dayend", Pol::Password, &pre, base + 86393 * G, &(if thorough { alpha_of(&[0, G, 3 * G, 4 * G], &[None]) } else { alpha_of(&[G, 3 * G, 4 * G], &[None]) }), len);
     // TOTP with a 3 s step and with the default 30 s step near a step boundary
-    exhaustive(sink, "xh_totp3", Pol::Totp(3), &[], base + h, &a_half, len);
+    exhaustive(sink, "xh_totp3", Pol::Totp(3), &[], base + h, &a_half, len_deep);
     exhaustive(sink, "xh_totp30_stepend", Pol::Totp(30), &[], base + 28 * G - h, &a_half, len);
     exhaustive(sink, "xh_webauthn", Pol::Webauthn, &[], base + 10 * G, &a_half, len - 1);
     exhaustive(sink, "xh_unrestricted", Pol::Unrestricted, &[], base + 10 * G, &a_half, 3);
@@ -389,7 +390,7 @@ fn gen_exhaustive(sink: &mut Sink, thorough: bool) {
     let t0 = base + 5000 * G;
     let a_exp = alpha_of(&[0, G + h], &[None, Some(t0 + G), Some(t0 + 100 * G)]);
     exhaustive(sink, "xh_password_expiry", Pol::Password, &[], t0, &a_exp, if thorough { 4 } else { 3 });
-    exhaustive(sink, "xh_totp30_expiry", Pol::Totp(30), &[], t0, &a_exp, if thorough { 4 } else { 2 });
+    exhaustive(sink, "xh_totp30_expiry", Pol::Totp(30), &[], t0, &a_exp, if thorough { 3 } else { 2 });
 }
 
 /// one random long history; `peek` gives the current lock state so that the generator can
@@ -452,7 +453,7 @@ fn random_history(rng: &mut Rng, pol: Pol, n: usize, flavour: u64) -> (Vec<Ev>, 
 }
 
 fn gen_random(sink: &mut Sink, rng: &mut Rng, thorough: bool) {
-    let n_pw = if thorough { 300 } else { 24 };
+    let n_pw = if thorough { 200 } else { 24 };
     for i in 0..n_pw {
         let flavour = match i % 10 { 8 => 1, 9 => 2, _ => 0 };
         let n = rng.range(130, 230) as usize;
@@ -743,8 +744,9 @@ async fn gen_server(sink: &mut Sink, rng: &mut Rng, thorough: bool) {
             emit_events(sink, src, tag, pol, &evs, &obs);
         }
     }
-    // the day-end scenario of C28_refuted on the real server: 3 failures, a 4th 2 s before midnight UTC
-    // (unlock_at 1 s after midnight, reset_at midnight), then the RIGHT password 0.5 s after midnight
+    // the day-end scenario of C28_prefix_refuted on the real server: 3 failures, a 4th 2 s before midnight
+    // UTC (unlock_at 1 s after midnight), then the RIGHT password 0.5 s and 1 s after midnight: it must be
+    // refused both times (before /repo commit 5cd0e73 it was accepted)
     for (path, src, tag) in [(Path::Unix, 2u64, "srv_unix_dayend"), (Path::Auth, 1, "srv_auth_dayend")] {
         person += 1;
         let who = mk_person(&idms, person, path, rng).await;
@@ -784,7 +786,7 @@ fn main() {
     let mut sink = Sink::new(&args, "KV.C28.Model", 900);
     sink.rule = "CNext: failure_next_state on the boundary grid (policies x counts at every threshold x instants around second/step/day ends, sub-second offsets). \
 CRaw: every single raw transition from a grid of lock states (all three kinds, counts at thresholds, unlock/reset before/at/after T, consumed or new expiry) plus random 2-5 op sequences. \
-CEvents src 0: the consultation discipline on a real CredSoftLock — ALL words of length 4 over {advance 0,1,1.5 s} (quick) / length 5 over {0,0.5,1,1.5 s} (thorough) x {wrong,right} near a day end / step end for every policy, with 3 s delays, and with administrator expiries in the alphabet; random long histories (130-230 consultations for passwords so that the 100/day cap is reached, 10-60 for TOTP) that aim just after each unlock time, over real time scales, incl. clock regressions and expiries. \
+CEvents src 0: the consultation discipline on a real CredSoftLock — ALL words of length 4 over {advance 0,1,1.5 s} (quick) / length 4-5 over {0,0.5,1,1.5 s} (thorough) x {wrong,right} near a day end / step end for every policy, with 3 s delays, and with administrator expiries in the alphabet; random long histories (130-230 consultations for passwords so that the 100/day cap is reached, 10-60 for TOTP) that aim just after each unlock time, over real time scales, incl. clock regressions and expiries. \
 CEvents src 1/2/3: a real IdmServer (auth Init/Begin/Cred with interleaved sessions, auth_unix, password+TOTP) at harness-chosen times with wrong and right credentials, administrator expiry set on the entry, lock read back after every call; one scripted run per path to the cap. \
 non-trivial = (CEvents) at least one failure was recorded AND at least one consultation was refused; (CNext) a lock was produced; (CRaw) the state changed.".into();
     gen_next(&mut sink, args.thorough);
